@@ -10,6 +10,9 @@ from props import cache_common as C
 
 INC = ["-Iinc", "-Iinc2"]
 SHIFTS = [1, 2, 255, 256, 257, 512, 65536]
+# inline suppression comments put after `a[i] = x;`: none, matching (when i == 2), non-matching, misspelt
+SUPP_IDS = [None, "arrayIndexOutOfBounds", "zerodiv", "arrayIndexOutOfBound"]
+INLINE_OPTS = ["--inline-suppr", "--enable=information"]
 
 
 def src_text(s):
@@ -22,7 +25,8 @@ def src_text(s):
     n = s["name"]
     if s.get("sc"):
         L += [ind + "int %s_s(int y) { return y + 1; }" % n]
-    L += [ind + "int %s(int x)" % n, ind + "{", ind + "  int a[2];", ind + "  a[%d] = x;%s" % (s["idx"], " /* c */" if s.get("comment_in") else ""),
+    L += [ind + "int %s(int x)" % n, ind + "{", ind + "  int a[2];", ind + "  a[%d] = x;%s%s" % (s["idx"], " /* c */" if s.get("comment_in") else "",
+                                                                                                         (" // cppcheck-suppress " + s["supp"]) if s.get("supp") else ""),
           ind + "  return %s%s100 / %s;" % ("hf(x) + " if s.get("hdr") else "", ("%s_s(x) + " % n) if s.get("sc") else "", s["div"]), ind + "}"]
     if s.get("extra"):
         L += [ind + "int %s_e(int *p)" % n, ind + "{", ind + "  int u;", ind + "  return u + *p;", ind + "}"]
@@ -41,7 +45,7 @@ def hdr_text(s):
 
 def new_src(rng, name, hdr, cpp=False):
     return {"name": name, "pre": 0, "indent": 0, "idx": rng.choice([1, 2]), "div": rng.choice(["0", "x"]),
-            "hdr": hdr, "extra": rng.random() < 0.3, "comment_end": 0, "odr": 0}
+            "hdr": hdr, "extra": rng.random() < 0.3, "comment_end": 0, "odr": 0, "supp": rng.choice(SUPP_IDS + [None, None])}
 
 
 class World:
@@ -96,6 +100,8 @@ def apply_edit(w, e):
             s["comment_in"] = not s.get("comment_in")
         else:
             s["comment_top"] = s.get("comment_top", 0) + 1
+    elif k == "supp":
+        w.src[e[1]]["supp"] = e[2]
     elif k == "hdr_tok":
         w.hdr[1]["idx"] = 3 - w.hdr[1]["idx"]
     elif k == "hdr_lineshift":
@@ -145,7 +151,7 @@ def gen_history(rng, nsteps, allow_clash=False):
             steps.append(("run", rng.choice([1, 1, 2])))
             continue
         f = rng.choice(files)
-        kinds = ["tok", "lineshift", "colshift", "comment", "hdr_tok", "hdr_lineshift", "hdr_colshift", "hdr_comment",
+        kinds = ["tok", "lineshift", "colshift", "comment", "supp", "supp", "hdr_tok", "hdr_lineshift", "hdr_colshift", "hdr_comment",
                  "hdr_move", "add", "remove", "rename", "touch"]
         k = rng.choice(kinds)
         if k == "tok":
@@ -156,6 +162,8 @@ def gen_history(rng, nsteps, allow_clash=False):
             e = ("colshift", f, rng.choice([1, 255, 256, 257, 512]))
         elif k == "comment":
             e = ("comment", f, rng.choice(["end", "in", "top"]))
+        elif k == "supp":
+            e = ("supp", f, rng.choice(SUPP_IDS))
         elif k == "hdr_lineshift":
             e = (k, rng.choice(SHIFTS))
         elif k == "hdr_colshift":
@@ -258,18 +266,25 @@ def play(run, T, steps, opts, ti_fn, tag, stream="history", check_key=True):
             fresh, _, _ = C.cppcheck(sc, files, INC + list(opts), builddir=False, jobs=1)
             hits = C.hits_of(dbg)
             log.append("run -j%d files=%s  hits=%s" % (jobs, files, sorted(hits)))
-            # ---- tie to the model for this run
+            # ---- tie to the model for this run (skipped when there is no model: T is None)
             txt, rows = C.read_files_txt(sc)
             order = [r[1] for r in rows]
-            mres = T.model_run([["filestxt"] + order, ["lookupok"] + order] + [["lookup", f] + order for f in order])
+            mok, maf, states = True, {}, {}
+            if T is None:
+                for f in order:
+                    run.count(stream, None, nontrivial=(tag, si, f), bucket="hit" if f in hits else "miss")
+                order_for_model = []
+            else:
+                order_for_model = order
+            mres = [[b""], [b"1"]] if T is None else T.model_run([["filestxt"] + order, ["lookupok"] + order] + [["lookup", f] + order for f in order])
             mtxt, mok = mres[0], mres[1] == [b"1"]
-            if (mtxt[0] if mtxt else b"").decode("latin-1") != txt:
+            if T is not None and (mtxt[0] if mtxt else b"").decode("latin-1") != txt:
                 problems.append(("tie:filestxt", "files.txt written by the binary differs from the model's text",
                                  {"files": order, "real": txt, "model": vlib.show(mtxt)}, False))
-            maf = {f: (m[0].decode("latin-1") if m else "") for f, m in zip(order, mres[2:])}
-            states = {}
-            for f in order:
-                ti = ti_fn(f)
+            if T is not None:
+                maf = {f: (m[0].decode("latin-1") if m else "") for f, m in zip(order, mres[2:])}
+            for f in order_for_model:
+                ti = ti_fn(f, sc)
                 us = ustate_of(T, sc, ti, f, ["inc", "inc2"])
                 states[f] = us
                 if us is None:
@@ -298,7 +313,7 @@ def play(run, T, steps, opts, ti_fn, tag, stream="history", check_key=True):
                 reasons = set()
                 if not mok:
                     reasons.add("files-txt-suffix-clash")
-                for f in order:
+                for f in order_for_model:
                     if f in hits:
                         r = diff_reason(entry_state.get(maf[f]), states[f])
                         if r:
@@ -311,7 +326,9 @@ def play(run, T, steps, opts, ti_fn, tag, stream="history", check_key=True):
                 what = "run %d (-j%d) with the build dir differs from a run without it: only cached %s, only fresh %s" % (
                     nrun, jobs, only_c[:3], only_f[:3])
                 problems.append((key, what, {"history": log[:], "options": INC + list(opts), "files": files,
-                                             "cached": cached, "fresh": fresh,
+                                             "cached": cached, "fresh": fresh, "cache_hits": sorted(hits),
+                                             "sources_at_this_run": {f: sc.read(f) for f in files if len(sc.read(f)) < 4000},
+                                             "model_tie": "on" if T is not None else "off (translator or proof failed): plain cached-vs-fresh comparison",
                                              "how": "replay the listed edits/runs in a scratch dir with --cppcheck-build-dir; compare the last run with one without it"},
                                  True))
             run.count(stream + ":runs", None, nontrivial=(tag, si), bucket="agree" if cached == fresh else "differ")
